@@ -287,7 +287,7 @@ inductive OutsideTag where
   | packageTemplateFile   -- `get_template(template_file_path)`: compiles the Jinja2 template FILE of that path once per process. For
                           -- the package's own templates the file is installation data. With `custom_template_dir` the path lies in
                           -- the user's directory: a template edited between two generate() calls of one interpreter is not re-read
-                          -- (stated here, not proved away; the differential runs use the package's templates only)
+                          -- (a genuine history dependence of the unchanged code: known finding C08-template-cache, met by the history-pair runs)
   deriving Repr, DecidableEq
 
 /-- process-wide memoised functions whose result depends on state OUTSIDE their arguments (file content, environment, clock):
